@@ -257,6 +257,96 @@ CONVERTED = {"FortranSyntaxError", "NoMatchError", "InternalSyntaxError", "StopI
 PRINTERS = ("tostr", "tofortran", "torepr", "__str__", "__repr__", "tostr_a")
 
 
+_CONTRACT_CACHE = {}
+PROBE_CHARS = "x*(),1:%/[=&.'"
+
+
+def length_contract(m, f, tests):
+    """A matcher raises under `len(<its string parameter>) <= N` and nothing else: a *precondition on its callers*.  Decided by
+    interpretation: every function of the grammar that names the class is a matcher whose own text reaches the callee; each is run
+    (statement world of rules/two_roundtrip.py, the callee's real matcher included) on probe texts made of the caller's own
+    upper-case keyword constants followed by one character, in the layouts a declaration can have.  Returns (True, note) when no
+    probe ends in anything but a match or NoMatchError, (False, reason) otherwise, (None, reason) when the form is not this one."""
+    params = A.param_names(f.node)
+    if not params:
+        return None, "no parameter"
+    p0 = params[0]
+    bound = None
+    for t in tests:
+        ok = isinstance(t, ast.Compare) and len(t.ops) == 1 and isinstance(t.ops[0], (ast.LtE, ast.Lt)) and isinstance(t.left, ast.Call) \
+            and A.dotted(t.left.func) == "len" and len(t.left.args) == 1 and isinstance(t.left.args[0], ast.Name) and t.left.args[0].id == p0 \
+            and isinstance(A.const(t.comparators[0], None), int)
+        if not ok:
+            return None, "not a length test on the parameter"
+        n_ = A.const(t.comparators[0])
+        bound = max(bound or 0, n_ if isinstance(t.ops[0], ast.LtE) else n_ - 1)
+    if bound is None or bound > 2 or f.cls_node is None:
+        return None, "no bound"
+    cname = f.qualname.split(".")[0]
+    key = (id(m), cname, bound)
+    if key in _CONTRACT_CACHE:
+        return _CONTRACT_CACHE[key]
+    callers = []
+    for (path, q), g in sorted(m.funcs.items()):
+        if not in_world(g) or g is f or not g.module.startswith("fparser.two"):
+            continue
+        if any(isinstance(x, ast.Name) and x.id == cname and isinstance(x.ctx, ast.Load) for x in ast.walk(g.node)):
+            callers.append(g)
+    res = None
+    if not callers:
+        res = (True, "no function names %s" % cname)
+    for g in callers:
+        if g.qualname.split(".")[-1] != "match" or g.cls_node is None:
+            res = (False, "%s names %s outside a matcher: what text it hands over is not decided" % (g.qualname, cname))
+            break
+    if res is None:
+        from rules import two_roundtrip as TR
+        from sa import pureeval as PE
+        probes_run = 0
+        try:
+            for std in ("f2003", "f2008"):
+                w = TR.World(m, std)
+                for g in callers:
+                    gk = m.key(g.qualname.split(".")[0], g.module) or w.classes.get(g.qualname.split(".")[0])
+                    if gk is None:
+                        res = (False, "%s: class not found" % g.qualname)
+                        break
+                    words = sorted({x.value for x in ast.walk(g.node) if isinstance(x, ast.Constant) and isinstance(x.value, str)
+                                    and x.value.isalpha() and x.value.isupper() and len(x.value) > 2})
+                    if not words:
+                        res = (False, "%s: no keyword constant to build probe texts from" % g.qualname)
+                        break
+                    for kw in words:
+                        for c in PROBE_CHARS:
+                            short = c
+                            for probe in (kw + " " + short, kw.lower() + short, " " + kw + "  " + short + " ", kw + " " + short + ", kind :: k",
+                                          kw.lower() + short + " , len :: k"):
+                                probes_run += 1
+                                w._acc.clear()
+                                try:
+                                    w.full_parse(gk, probe)
+                                except PE.PyRaise as err:
+                                    if err.exc_type != "NoMatchError":
+                                        res = (False, "%s(%r) ends in %s (%s)" % (g.qualname.split(".")[0], probe, err.exc_type, (err.msg or "")[:60]))
+                                        break
+                            if res is not None:
+                                break
+                        if res is not None:
+                            break
+                    if res is not None:
+                        break
+                if res is not None:
+                    break
+        except PE.Unsupported as err:
+            res = (None, "the callers cannot be interpreted (%s)" % err)
+        if res is None:
+            res = (True, "%d probe texts through %s: none hands %s a text of %d character(s) or fewer"
+                   % (probes_run, ", ".join(g.qualname for g in callers), cname, bound))
+    _CONTRACT_CACHE[key] = res
+    return res
+
+
+
 def r3_foreign_raises(m, ctx):
     r = RuleResult("C06.R3", "explicit raises of non-convertible classes are not triggerable by the content of the parsed text")
     r.floor = 60
@@ -301,6 +391,8 @@ def r3_foreign_raises(m, ctx):
                     t0 = content_tests[0]
                     if all(_is_ctor_result(m, ctx, f, t) for t in content_tests):
                         tag = "D3 constructor results are objects or raise"
+                    elif length_contract(m, f, content_tests)[0]:
+                        tag = "D8 a length precondition every caller keeps (%s)" % length_contract(m, f, content_tests)[1]
                     else:
                         tag = None
                         r.ob(False)
